@@ -295,8 +295,13 @@ impl DateTimePrinter {
         // here.
         if offset.part_seconds_ranged().abs() >= C(30) {
             if minutes == 59 {
-                hours = hours.saturating_add(1);
-                minutes = 0;
+                // An offset within 30 seconds of its limit of 25:59:59
+                // has no valid whole minute above it, so it isn't rounded
+                // up to `26:00`, which no parser accepts.
+                if hours < 25 {
+                    hours = hours.saturating_add(1);
+                    minutes = 0;
+                }
             } else {
                 minutes = minutes.saturating_add(1);
             }
